@@ -5,6 +5,12 @@ FINDINGS = [
          "dangles for names that str.title() changes (UserProfile -> Userprofile, user_profile -> User_Profile, config_tbl -> Config, HTTPLog -> Httplog)",
          site="cdd/compound/openapi/gen_openapi.py:openapi_bulk (schema key derivation)",
          example="model class UserProfile, crud 'R': paths refer to #/components/schemas/UserProfile, components.schemas has 'Userprofile'"),
+    dict(id="C16-bulk-schema-key-title-cased-operations-name-undefined-schema", property="C16",
+         pattern=dict(check="openapi", via="pipeline", clause="operation_describes_another_model", name_class="changed_by_title", schema_defined=False, names_error_schema=False),
+         what="the same root cause seen from the operations: the request body and the success responses of such a model name a schema key the document does not define, "
+              "so they do not describe the model (C16-bulk-schema-key-title-cased)",
+         site="cdd/compound/openapi/gen_openapi.py:openapi_bulk (schema keys are title-cased, the routes' references are not)",
+         example="model UserProfile, CRUD 'C': post /api/userprofile requestBody -> UserProfileBody -> #/components/schemas/UserProfile, defined key is 'Userprofile'"),
     dict(id="C16-inferred-id-leaks-ast-call", property="C16",
          pattern=dict(check="openapi", via="pipeline", clause="not_serialisable", pk_has_id=True),
          what="a model whose primary key is the inferred `id = Column(Integer, primary_key=True, server_default=Identity())` puts the parsed server_default (an ast.Call object) "
